@@ -98,10 +98,13 @@ func c15MainIn(cwd string, args []string, stdin string) (int, string, string) {
 	return code, stdout.String(), stderr.String()
 }
 
+// c15OnelineTemplate prints what -oneline prints.
+const c15OnelineTemplate = "{{range $ := .}}{{$.Filepath}}:{{$.Line}}:{{$.Column}}: {{$.Message}} [{{$.Kind}}]\n{{end}}"
+
 func TestVerifC15(t *testing.T) {
 	r := vNewReport("C15")
 	defer r.Write(t)
-	r.Extra["rule"] = "3 workflows x 12 -ignore sets x 4 paths globs x 4 config ignore sets given by the repository's actionlint.yaml or by -config-file (repository without its own) x {no further entry, a further matching entry, a further non-matching entry} x 4 working directories x 5 path spellings (relative, ./relative, absolute; piped through stdin with a relative / absolute -stdin-filename) through Command.Main (-oneline -no-color), complete product; oracle: unfiltered list minus diagnostics matched by a CLI pattern or by a config pattern whose glob matches the root-relative path, order preserved, exit 1 iff non-empty; plus every ordered pair / triple of files of 4 different locations (repository, sibling repository, nested repository, no repository) x 3 working directories x relative / absolute spelling in one invocation; plus exit-status rows (invalid flag 2; unreadable file, bad config, bad -ignore regexp, bad config regexp 3). class = (remaining diagnostics, exit status); non-trivial = something is filtered"
+	r.Extra["rule"] = "3 workflows x 12 -ignore sets x 4 paths globs x 4 config ignore sets given by the repository's actionlint.yaml or by -config-file (repository without its own) x {no further entry, a further matching entry, a further non-matching entry, patterns given as YAML aliases} x 4 working directories x 5 path spellings (relative, ./relative, absolute; piped through stdin with a relative / absolute -stdin-filename) through Command.Main (-oneline -no-color), complete product; oracle: unfiltered list minus diagnostics matched by a CLI pattern or by a config pattern whose glob matches the root-relative path, order preserved, exit 1 iff non-empty; plus every ordered pair / triple of files of 4 different locations (repository, sibling repository, nested repository, no repository) x 3 working directories x relative / absolute spelling x {-oneline, equivalent -format template} in one invocation; plus exit-status rows (invalid flag 2; unreadable file, bad config, bad -ignore regexp, bad config regexp, non-string ignore element 3). class = (remaining diagnostics, exit status); non-trivial = something is filtered"
 	r.Extra["assumptions"] = []string{"glob match bits are part of the scenario table (written by hand for 4 globs x 3 files)", "working directory is process-global: cases run sequentially inside each worker process"}
 	orig, _ := os.Getwd()
 	defer os.Chdir(orig)
@@ -127,6 +130,7 @@ func TestVerifC15(t *testing.T) {
 	cwds := map[string]string{"root": root, "parent": filepath.Join(base, "parent"), "nested": filepath.Join(root, ".github", "workflows"), "unrelated": filepath.Join(base, "other")}
 	common := []string{"-oneline", "-no-color", "-shellcheck=", "-pyflakes="}
 
+	// second: 3 = the patterns are YAML aliases of anchors set in a further entry that matches nothing;
 	// second: 0 = no further entry; 1 = a further entry whose glob matches every workflow and ignores
 	// the runner-label message; 2 = a further entry whose glob matches nothing and ignores everything
 	customCfg := filepath.Join(base, "custom-config.yaml")
@@ -134,7 +138,7 @@ func TestVerifC15(t *testing.T) {
 	writeCfg := func(g *c15Glob, pats []string, second int) {
 		os.Remove(cfgPath)
 		os.Remove(customCfg)
-		if (g == nil || len(pats) == 0) && second == 0 {
+		if (g == nil || len(pats) == 0) && (second == 0 || second == 3) {
 			return
 		}
 		var b strings.Builder
@@ -142,9 +146,20 @@ func TestVerifC15(t *testing.T) {
 		if second == 2 {
 			b.WriteString("  'nomatch2/**/*.yml':\n    ignore:\n      - '.*'\n")
 		}
+		if second == 3 {
+			// the patterns are anchored in an entry that matches nothing and given as aliases below
+			b.WriteString("  'nomatch3/**/*.yml':\n    ignore:\n")
+			for i, p := range pats {
+				b.WriteString(fmt.Sprintf("      - &p%d '%s'\n", i, strings.ReplaceAll(p, "'", "''")))
+			}
+		}
 		if g != nil && len(pats) > 0 {
 			b.WriteString("  '" + g.glob + "':\n    ignore:\n")
-			for _, p := range pats {
+			for i, p := range pats {
+				if second == 3 {
+					b.WriteString(fmt.Sprintf("      - *p%d\n", i))
+					continue
+				}
 				b.WriteString("      - '" + strings.ReplaceAll(p, "'", "''") + "'\n")
 			}
 		}
@@ -236,7 +251,7 @@ func TestVerifC15(t *testing.T) {
 				for pi, cfgPats := range c15CfgSets {
 					for _, cwdName := range []string{"root", "parent", "nested", "unrelated"} {
 						for _, spelling := range []string{"relative", "dot-relative", "absolute", "stdin-relative", "stdin-absolute"} {
-							for second := 0; second < 3; second++ {
+							for second := 0; second < 4; second++ {
 								for _, via := range []string{"repo", "flag"} {
 									cfgTarget = cfgPath
 									if via == "flag" {
@@ -387,55 +402,61 @@ func TestVerifC15(t *testing.T) {
 		for _, ord := range orders {
 			for _, cwdName := range []string{"parent", "unrelated", "nested"} {
 				for _, abs := range []bool{true, false} {
-					args := append([]string{}, common...)
-					var want []string
-					for _, k := range ord {
-						p := mfs[k].path
-						if !abs {
-							rel, err := filepath.Rel(cwds[cwdName], p)
-							if err != nil {
-								continue
+					for _, custom := range []bool{false, true} {
+						args := append([]string{}, common...)
+						if custom {
+							// the same lines through a -format template instead of -oneline
+							args = []string{"-no-color", "-shellcheck=", "-pyflakes=", "-format", c15OnelineTemplate}
+						}
+						var want []string
+						for _, k := range ord {
+							p := mfs[k].path
+							if !abs {
+								rel, err := filepath.Rel(cwds[cwdName], p)
+								if err != nil {
+									continue
+								}
+								p = rel
 							}
-							p = rel
-						}
-						args = append(args, p)
-						for _, frag := range mfs[k].keep {
-							want = append(want, filepath.Base(mfs[k].path)+":"+frag)
-						}
-					}
-					code, out, errOut := c15Main(cwds[cwdName], args)
-					r.Evaluations++
-					r.Transitions++
-					r.Validated++
-					ds, paths := c15Parse(out)
-					var got []string
-					for i, d := range ds {
-						frag := "other"
-						for _, f := range []string{"undefined variable", "shell name"} {
-							if strings.Contains(d.msg, f) {
-								frag = f
+							args = append(args, p)
+							for _, frag := range mfs[k].keep {
+								want = append(want, filepath.Base(mfs[k].path)+":"+frag)
 							}
 						}
-						pb := "?"
-						if i < len(paths) {
-							pb = filepath.Base(paths[i])
+						code, out, errOut := c15Main(cwds[cwdName], args)
+						r.Evaluations++
+						r.Transitions++
+						r.Validated++
+						ds, paths := c15Parse(out)
+						var got []string
+						for i, d := range ds {
+							frag := "other"
+							for _, f := range []string{"undefined variable", "shell name"} {
+								if strings.Contains(d.msg, f) {
+									frag = f
+								}
+							}
+							pb := "?"
+							if i < len(paths) {
+								pb = filepath.Base(paths[i])
+							}
+							got = append(got, pb+":"+frag)
 						}
-						got = append(got, pb+":"+frag)
+						wantExit := 0
+						if len(want) > 0 {
+							wantExit = 1
+						}
+						sort.Strings(got)
+						ws := append([]string{}, want...)
+						sort.Strings(ws)
+						replay := map[string]any{"cwd": cwdName, "args": args, "config": cfgText, "want": nil, "want_exit": wantExit, "multi": ws}
+						if strings.Join(got, "|") != strings.Join(ws, "|") {
+							r.Violation("multi-file:first="+filepath.Base(mfs[ord[0]].path), fmt.Sprintf("cwd=%s args=%v: remaining diagnostics %v, each file filtered by its own repository's configuration leaves %v; stderr %s", cwdName, args[3:], got, ws, vTrunc(errOut, 200)), replay)
+						} else if code != wantExit {
+							r.Violation("multi-file:exit-status", fmt.Sprintf("cwd=%s args=%v: exit status %d, expected %d", cwdName, args[3:], code, wantExit), replay)
+						}
+						r.Class(fmt.Sprintf("multi-file files=%d custom-format=%v", len(ord), custom), true)
 					}
-					wantExit := 0
-					if len(want) > 0 {
-						wantExit = 1
-					}
-					sort.Strings(got)
-					ws := append([]string{}, want...)
-					sort.Strings(ws)
-					replay := map[string]any{"cwd": cwdName, "args": args, "config": cfgText, "want": nil, "want_exit": wantExit, "multi": ws}
-					if strings.Join(got, "|") != strings.Join(ws, "|") {
-						r.Violation("multi-file:first="+filepath.Base(mfs[ord[0]].path), fmt.Sprintf("cwd=%s args=%v: remaining diagnostics %v, each file filtered by its own repository's configuration leaves %v; stderr %s", cwdName, args[len(common):], got, ws, vTrunc(errOut, 200)), replay)
-					} else if code != wantExit {
-						r.Violation("multi-file:exit-status", fmt.Sprintf("cwd=%s args=%v: exit status %d, expected %d", cwdName, args[len(common):], code, wantExit), replay)
-					}
-					r.Class(fmt.Sprintf("multi-file files=%d", len(ord)), true)
 				}
 			}
 		}
@@ -458,8 +479,19 @@ func TestVerifC15(t *testing.T) {
 			{"bad-config-regexp", func() {
 				os.WriteFile(cfgPath, []byte("paths:\n  '**/*.yml':\n    ignore:\n      - '(unclosed'\n"), 0o644)
 			}, []string{w2}, 3},
+			{"bad-config-nonstring-ignore", func() {
+				os.WriteFile(cfgPath, []byte("paths:\n  '**/*.yml':\n    ignore:\n      - [nomatch]\n"), 0o644)
+			}, []string{w2}, 3},
+			{"bad-config-mapping-ignore", func() {
+				os.WriteFile(cfgPath, []byte("paths:\n  '**/*.yml':\n    ignore:\n      - {a: b}\n"), 0o644)
+			}, []string{w2}, 3},
 			{"bad-config-glob", func() { os.WriteFile(cfgPath, []byte("paths:\n  '[':\n    ignore: []\n"), 0o644) }, []string{w2}, 3},
 			{"bad-config-file-option", nil, []string{"-config-file", filepath.Join(base, "nope.yaml"), w2}, 3},
+			{"problems-with-format", nil, []string{"-format", c15OnelineTemplate, w2}, 1},
+			{"two-files-with-format", nil, []string{"-format", c15OnelineTemplate, filepath.Join(root, ".github/workflows/w0.yml"), w2}, 1},
+			{"two-clean-files-with-format", nil, []string{"-format", c15OnelineTemplate, filepath.Join(root, ".github/workflows/w0.yml"), filepath.Join(root, ".github/workflows/w0.yml")}, 0},
+			{"repository-mode", nil, nil, 1},
+			{"repository-mode-with-format", nil, []string{"-format", c15OnelineTemplate}, 1},
 			{"clean-file", nil, []string{filepath.Join(root, ".github/workflows/w0.yml")}, 0},
 			{"problems", nil, []string{w2}, 1},
 		}
